@@ -24,8 +24,8 @@ theorem unifyLaws_simple : UnifyLaws Env.simple where
       simpa [Env.simple] using this
 
 theorem setLaws_simple : SetLaws Env.simple where
-  hash_ok := fun _ _ => .inl ⟨0, rfl⟩
-  equiv_ok := fun _ _ _ => .inl ⟨false, rfl⟩
+  hash_ok := fun _ _ _ _ => .inl ⟨0, rfl⟩
+  equiv_ok := fun _ _ _ _ _ _ => .inl ⟨false, rfl⟩
 
 /-! ### a placeholder-free result type leaves nothing unresolved -/
 mutual
